@@ -509,6 +509,10 @@ class GameCoordinator:
         Outputs: None
         """
         self.logger.debug("Beginning the _process_reset_game_action.")
+        if agent_addr not in self.agents:
+            self.logger.info(f"Agent {agent_addr} requested reset before joining the game.")
+            await self._send_bad_request(agent_addr, "Agent has not joined the game.")
+            return
         async with self._reset_lock:
              # add reset request for this agent
             self._reset_requests[agent_addr] = True
@@ -542,6 +546,10 @@ class GameCoordinator:
         await self._agent_response_queues[agent_addr].put(response_msg_json)
 
     async def _process_game_action(self, agent_addr: tuple, action:Action)->None:
+        if agent_addr not in self.agents:
+            self.logger.info(f"Agent {agent_addr} attempted to play {action} before joining the game.")
+            await self._send_bad_request(agent_addr, "Agent has not joined the game.")
+            return
         if self._episode_ends[agent_addr]:
             self.logger.warning(f"Agent {agent_addr}({self.agents[agent_addr]}) is attempting to play action {action} after the end of the episode!")
             # agent can't play any more actions in the game
